@@ -120,6 +120,13 @@ Proof.
   apply insert_wstate; [cbn; discriminate|]. pose proof (fresh_id_wstate D _ c res q H) as P. rewrite Ef in P. exact P.
 Qed.
 
+Lemma w_pend_wstate : forall D e k c res q, wstate D (e_tab e) c res q -> wstate D (e_tab (w_pend e k)) c res q.
+Proof.
+  intros D e k c res q H. unfold w_pend. destruct (t_live (e_tab e) k) as [[o r]|]; [|exact H].
+  destruct (t_fresh_id (e_tab e)) as [t id] eqn:Ef. cbn [add_urev set_tab e_tab].
+  apply insert_wstate; [cbn; discriminate|]. pose proof (fresh_id_wstate D _ c res q H) as P. rewrite Ef in P. exact P.
+Qed.
+
 Theorem do_write_covers : forall D e kind k c res q,
   keyed (e_tab e) -> c <= t_rev (e_tab e) ->
   (forall pk, covered D (e_tab e) c res q pk) ->
@@ -129,17 +136,10 @@ Proof.
   intros D e kind k c res q A B C.
   assert (W : wstate D (e_tab e) c res q) by (split; [exact A|split; [exact B|exact C]]).
   unfold do_write.
-  destruct kind as [|[[p|p|]|[p|[p|p|]|]|]].
-  - apply w_put_wstate; exact W.
-  - apply w_ref_wstate; exact W.
-  - apply w_ref_wstate; exact W.
-  - apply w_stat_wstate; exact W.
-  - apply w_ref_wstate; exact W.
-  - apply w_ref_wstate; exact W.
-  - apply w_ref_wstate; exact W.
-  - apply w_stat_wstate; exact W.
-  - apply w_put_wstate. apply w_del_wstate. exact W.
-  - apply w_del_wstate; exact W.
+  destruct kind as [|[[p|[p|p|]|]|[p|[p|p|]|]|]];
+    first [ apply w_put_wstate; apply w_del_wstate; exact W
+          | apply w_put_wstate; exact W | apply w_del_wstate; exact W | apply w_stat_wstate; exact W
+          | apply w_ref_wstate; exact W | apply w_pend_wstate; exact W ].
 Qed.
 
 Theorem two_commits_cover : forall D c now res1 res2 t q t1 q1 t2 q2,
